@@ -156,6 +156,7 @@ structure SchedSt where
   envs      : List Nat := []                    -- `_named_envs`
   cancel    : List Nat := []                    -- `_cancel_list`
   given     : List (Nat × List Slot) := []      -- task['slots'] by uid (last placement)
+  unschedQ  : List (List Nat) := []             -- messages still on the unschedule queue
 deriving Repr
 
 def slotsPerNode (c : Cfg) (r : Req) (cps : Nat) : Nat :=
@@ -405,7 +406,7 @@ structure Iter where
   incoming  : List Msg := []
   marks     : List Nat := []       -- uids appended to `_cancel_list` before this iteration
   envs      : List Nat := []       -- named environments registered before this iteration
-  unsched   : List Nat := []       -- uids on the unschedule queue
+  unsched   : List (List Nat) := []  -- messages put on the unschedule queue before this iteration
 deriving Repr
 
 def removeFromPools (wp : List (Int × List Req)) (uid : Nat) : List (Int × List Req) × Option Req :=
@@ -517,18 +518,26 @@ def scheduleIncoming (c : Cfg) (s : SchedSt) (msgs : List Msg) : SchedSt × List
               | (s3, evs3) => (s3, acc.2.1 ++ evs2 ++ evs3, toWait = []))
           (s1, evs, true))
 
+/-- the queue is drained message by message until it is empty or more than 512
+    tasks have been collected (the message that crosses the limit is still taken) -/
+def drainUnsched : List (List Nat) → List Nat → List Nat × List (List Nat)
+  | [],      acc => (acc, [])
+  | m :: ms, acc => if (acc ++ m).length > 512 then (acc ++ m, ms) else drainUnsched ms (acc ++ m)
+
 /-- `_unschedule_completed`: (state, resources, active) -/
-def unscheduleCompleted (s : SchedSt) (uids : List Nat) : SchedSt × Bool × Bool :=
-  if uids = [] then (s, false, false)
-  else
-    (uids.foldl (fun (acc : SchedSt) uid =>
-        match acc.given.find? (fun e => e.1 = uid) with
-        | none   => acc
-        | some e =>
-          match changeSlotStates acc.nodes e.2 false with
-          | none    => acc
-          | some ns => { acc with nodes := ns })
-      { s with activeCnt := s.activeCnt - uids.length }, true, true)
+def unscheduleCompleted (s : SchedSt) (msgs : List (List Nat)) : SchedSt × Bool × Bool :=
+  match drainUnsched (s.unschedQ ++ msgs) [] with
+  | (uids, rest) =>
+    if uids = [] then ({ s with unschedQ := rest }, false, false)
+    else
+      (uids.foldl (fun (acc : SchedSt) uid =>
+          match acc.given.find? (fun e => e.1 = uid) with
+          | none   => acc
+          | some e =>
+            match changeSlotStates acc.nodes e.2 false with
+            | none    => acc
+            | some ns => { acc with nodes := ns })
+        { s with activeCnt := s.activeCnt - uids.length, unschedQ := rest }, true, true)
 
 /-- one iteration of the `while` loop of `_schedule_tasks`; `res` is the `resources` flag -/
 def loopIter (c : Cfg) (s : SchedSt) (res : Bool) (it : Iter) : SchedSt × Bool × List Ev :=
